@@ -529,6 +529,12 @@ func (s *Server) pushReq(ctx context.Context, wantID bool, method string, params
 		P:  bits,
 	}})
 	bytesWrittenCount.Add(int64(nw))
+	if err != nil && rsp != nil {
+		// The request was not sent, so no reply is expected: release the
+		// registration and the goroutine watching the callback context.
+		delete(s.call, rsp.id)
+		rsp.cancel()
+	}
 	return rsp, err
 }
 
